@@ -4,7 +4,8 @@
 (* State of one vector:                                                    *)
 (*   base  storage allocated?      blk   size of that allocation in bytes  *)
 (*   count, cap                    tags  contents of slots 0..count-1      *)
-(* Constants: Esz (element size), HasX (constructor/destructor set).       *)
+(* Constants: Esz (element size), HasX (0: no callbacks, 1: constructor     *)
+(* and destructor, 2: constructor only, 3: destructor only).               *)
 (* Requested sizes are *terms* (SizeTerm): [k |-> "n", n |-> small value], *)
 (* [k |-> "pow", n |-> e] = 2^e (61..63: indexes whose byte offset wraps),  *)
 (* [k |-> "max", n |-> d] = SIZE_MAX - d, [k |-> "maxdiv", n |-> d] =      *)
@@ -17,6 +18,8 @@
 (***************************************************************************)
 EXTENDS Naturals, Integers, Sequences, FiniteSets, TLC
 CONSTANTS Esz, HasX
+HasC == HasX \in {1, 2}
+HasD == HasX \in {1, 3}
 
 Pow2(k) == CASE k = 0 -> 1 [] k = 1 -> 2 [] k = 2 -> 4 [] k = 3 -> 8 [] k = 4 -> 16 [] k = 5 -> 32 [] k = 6 -> 64 [] OTHER -> 128
 Fresh == [base |-> FALSE, blk |-> 0, count |-> 0, cap |-> 0, tags |-> <<>>]
@@ -52,12 +55,12 @@ ShrinkOp(s, ok) == IF s.cap > s.count THEN SetCapSmall(Mk(s), s.count, ok) ELSE 
 RECURSIVE Grow(_, _)
 Grow(m, sz) == IF m.s.count >= sz THEN m
                ELSE LET i == m.s.count
-                        m1 == IF HasX THEN Ev(m, <<"ctor", i>>) ELSE m
+                        m1 == IF HasC THEN Ev(m, <<"ctor", i>>) ELSE m
                     IN Grow([m1 EXCEPT !.s.count = i + 1, !.s.tags = Append(@, i + 1)], sz)
 RECURSIVE Cut(_, _)
 Cut(m, sz) == IF m.s.count <= sz THEN m
               ELSE LET i == m.s.count - 1
-                       m1 == IF HasX THEN Ev(m, <<"dtor", i>>) ELSE m
+                       m1 == IF HasD THEN Ev(m, <<"dtor", i>>) ELSE m
                    IN Cut([m1 EXCEPT !.s.count = i, !.s.tags = SubSeq(@, 1, i)], sz)
 ResizeM(m0, t, ok) ==
     LET m == ReserveM(m0, t, ok) IN
@@ -98,12 +101,12 @@ EvKind(ev, kd) == SelectSeq(ev, LAMBDA e : e[1] = kd)
 Slots(ev, kd) == LET q == EvKind(ev, kd) IN [i \in 1..Len(q) |-> q[i][2]]
 \* constructor once per slot entering [0,count), destructor once per slot leaving
 XtorOK(pre, post, ev) ==
-    IF ~HasX THEN EvKind(ev, "ctor") = <<>> /\ EvKind(ev, "dtor") = <<>>
-    ELSE LET c == Slots(ev, "ctor")  d == Slots(ev, "dtor") IN
-         /\ \A i, j \in 1..Len(c) : i # j => c[i] # c[j]
-         /\ \A i, j \in 1..Len(d) : i # j => d[i] # d[j]
-         /\ {c[i] : i \in 1..Len(c)} = {x \in 0..(post.count - 1) : x >= pre.count}
-         /\ {d[i] : i \in 1..Len(d)} = {x \in 0..(pre.count - 1) : x >= post.count}
+    LET c == Slots(ev, "ctor")  d == Slots(ev, "dtor") IN
+    /\ \A i, j \in 1..Len(c) : i # j => c[i] # c[j]
+    /\ \A i, j \in 1..Len(d) : i # j => d[i] # d[j]
+    \* either callback may be configured without the other
+    /\ {c[i] : i \in 1..Len(c)} = (IF HasC THEN {x \in 0..(post.count - 1) : x >= pre.count} ELSE {})
+    /\ {d[i] : i \in 1..Len(d)} = (IF HasD THEN {x \in 0..(pre.count - 1) : x >= post.count} ELSE {})
 IsPerm(a, b) == Len(a) = Len(b) /\ \A x \in {a[i] : i \in 1..Len(a)} \cup {b[i] : i \in 1..Len(b)} :
                    Cardinality({i \in 1..Len(a) : a[i] = x}) = Cardinality({i \in 1..Len(b) : b[i] = x})
 Sorted(q) == \A i \in 1..(Len(q) - 1) : q[i] <= q[i + 1]
